@@ -74,8 +74,10 @@ def plan_scenario(plans, sid, nkeys=12):
             faults.append(dict(site="fetcher.account", rid="q", key=path, kind="wrap-error"))
         elif site == "sign.enter":
             faults.append(dict(site="sign.enter", rid="q", key=kname, kind="error"))
+        elif site == "hash" and fk.startswith("shift"):
+            ents[i]["dom"] = "%s:%s" % (fk, PFX[kind])     # data K bytes short and domain K bytes long (K may be negative): the sum is 64
         elif site == "hash":
-            ents[i]["dom"] = PFX[kind] + ":len31"
+            ents[i]["dom"] = PFX[kind] + ":" + fk
         elif site == "rules.atts.pos":
             faults.append(dict(site="rules.atts.pos", rid="q", key=str(i), kind=fk))
         elif site == "rules.atts" and fk == "short":
